@@ -49,6 +49,16 @@ def zoo():
     rect = crystal.Crystal(np.array([[1., 0.3], [0., 1.4]]), [[np.zeros(2)], [np.array([.25, .5]), np.array([.75, .125])]],
                            chemistry=['A', 'i'])
     out.append(('oblique2d-2site', rect, 1, 1.05))
+    # monoclinic (unique axis c) with interstitial sites on the mirror plane z = 0 (site symmetry m: in-plane vector basis),
+    # as given and rigidly rotated so that the mirror normal is tilted away from every Cartesian axis
+    ml = np.array([[1.0, 0.3, 0.0], [0.0, 1.1, 0.0], [0.0, 0.0, 1.2]])
+    mb = [[np.zeros(3)], [np.array([.375, .25, 0.]), np.array([.625, .75, 0.]), np.array([.125, .5, .5]), np.array([.875, .5, .5])]]
+    mono = crystal.Crystal(ml, mb, chemistry=['M', 'i'])
+    out.append(('mono-mirror-sites', mono, 1, 0.8))
+    th, ph = math.radians(30.0), math.radians(20.0)
+    Ry = np.array([[math.cos(th), 0., math.sin(th)], [0., 1., 0.], [-math.sin(th), 0., math.cos(th)]])
+    Rz = np.array([[math.cos(ph), -math.sin(ph), 0.], [math.sin(ph), math.cos(ph), 0.], [0., 0., 1.]])
+    out.append(('mono-mirror-sites-tilted', crystal.Crystal(Rz @ Ry @ ml, mb, chemistry=['M', 'i'], noreduce=True), 1, 0.8))
     return out
 
 
